@@ -1220,6 +1220,23 @@ def _rule_r4_symbolic(repo: Repo, res: Result) -> None:
                 fixed[key] = True
             elif t[0] == "cmp" and t[1] == "==" and e.name == "add_edge" and {t[2], t[3]} == set(ends):
                 fixed[key] = False
+        # `if key not in done: done.add(key); <create>`: a memo local to the construction - the creation happens the first time a
+        # key is met, and a key that was met before stands for the same names (the ends are made of the key)
+        for key in sorted(atoms_of(f)):
+            t = sx.atoms.get(key)
+            if key in fixed or t is None or not (t[0] == "cmp" and t[1] == "in" and t[3][0] == "box" and t[3][:2] != graph[:2] and t[3][1] not in sx.persistent):
+                continue
+            init_ = sx.box_init.get(t[3][1], t[3][3])
+            if not (init_[0] in ("set", "list", "dict", "tuple") and not init_[1] or init_[0] == "call" and not init_[2] and not init_[3]):
+                continue
+            if len(atoms_of(f)) > 14 or not implies(f, f_not(atom(key))):
+                continue
+            writes = [ev for ev in tr.events if ev.kind in ("mut", "setitem", "delitem") and ev.recv is not None and ev.recv[0] == "box" and ev.recv[1] == t[3][1]]
+            if not writes or not all(ev.kind == "mut" and ev.name in ("add", "append") and len(ev.args) == 1 and ev.args[0] == t[2] and len(atoms_of(f_and(ev.pc))) <= 14 and implies(f_and(ev.pc), f_not(atom(key))) for ev in writes):
+                continue
+            key_sources = names.sources(t[2])
+            if all(s_ in key_sources for x in ends for s_ in names.sources(x)) and all(names.sources(x) for x in ends):
+                fixed[key] = False
         f2 = simplify(substitute(f, fixed)) if fixed else f
         if _holds_whenever_state_allows(f2, free - set(fixed)):
             return True, ""
